@@ -736,6 +736,16 @@ func main() {
 			})
 		}
 		f.defPairs("normalizeIDArms", arms)
+		// the same switch with the case types as a list (for the interpreter in JrpcProofs/Facts/Interp.lean)
+		var rows []string
+		for _, a := range arms {
+			var tys []string
+			for _, t := range strings.Split(a[0], ",") {
+				tys = append(tys, leanStr(t))
+			}
+			rows = append(rows, fmt.Sprintf("([%s], %s)", strings.Join(tys, ", "), leanStr(a[1])))
+		}
+		fmt.Fprintf(&f.lean, "def normalizeIDArmTypes : List (List String × String) := [%s]\n", strings.Join(rows, ", "))
 	}
 
 	// 6. handleFrame switch
